@@ -103,3 +103,60 @@ def _root(e):
 def short(s, n=110):
     s = ' '.join(str(s).split())
     return s if len(s) <= n else s[:n - 3] + '...'
+
+
+def path_must(logic, path, upto=None, depth=1):
+    """Literals certainly established by the branch decisions before event
+    index `upto` (later writes to the tested locations are not tracked; the
+    rules that use this are applied to small functions where the tested
+    locations are not written in between -- each rule says so)."""
+    out = set()
+    evs = path.events if upto is None else path.events[:upto]
+    for e in evs:
+        if e.kind == 'test':
+            alts = logic.dnf(e.node, e.frame, e.pol, depth=depth)
+            if alts:
+                common = set(alts[0])
+                for a in alts[1:]:
+                    common &= set(a)
+                out |= common
+    return out
+
+
+def events_with(path, pred):
+    return [(i, e) for i, e in enumerate(path.events) if pred(e)]
+
+
+def stmt_contains(e, pred):
+    """does the stmt/test event contain an ast node satisfying pred"""
+    if e.node is None or e.kind not in ('stmt', 'test'):
+        return False
+    if e.kind == 'stmt' and e.extra == 'with':
+        roots = [it.context_expr for it in e.node.items]
+    else:
+        roots = [e.node]
+    for r in roots:
+        for n in ast.walk(r):
+            if pred(n):
+                return True
+    return False
+
+
+def reaching_value(path, upto, name):
+    """RHS of the last assignment to local `name` before event index upto on
+    this path (None when the name is not assigned on the path)."""
+    val = None
+    for e in path.events[:upto]:
+        if e.kind == 'stmt' and isinstance(e.node, ast.Assign):
+            for t in e.node.targets:
+                if isinstance(t, ast.Name) and t.id == name:
+                    val = e.node.value
+                elif isinstance(t, (ast.Tuple, ast.List)):
+                    for j, x in enumerate(t.elts):
+                        if isinstance(x, ast.Name) and x.id == name:
+                            v = e.node.value
+                            val = v.elts[j] if isinstance(v, (ast.Tuple, ast.List)) and j < len(v.elts) else v
+        elif e.kind == 'stmt' and isinstance(e.node, ast.AugAssign) and isinstance(
+                e.node.target, ast.Name) and e.node.target.id == name:
+            val = e.node
+    return val
